@@ -5,6 +5,6 @@ cd "$(dirname "$0")"
 mkdir -p ../../.cache/bin
 OUT=../../.cache/bin/bcfacts
 if [ -x "$OUT" ] && [ "$OUT" -nt bcfacts.cc ]; then exit 0; fi
-clang++-14 $(llvm-config-14 --cxxflags) -fno-rtti -O1 -w bcfacts.cc -o "$OUT.tmp" \
+clang++-14 $(llvm-config-14 --cxxflags) -fno-rtti -O1 -w bcfacts.cc -o "$OUT.tmp.$$" \
   /usr/lib/llvm-14/lib/libclang-cpp.so.14 /usr/lib/llvm-14/lib/libLLVM-14.so
-mv "$OUT.tmp" "$OUT"
+mv "$OUT.tmp.$$" "$OUT"
